@@ -40,6 +40,7 @@ type msgCase struct {
 	SenderKey int
 	SenderXD  []byte // sender-level extra data option
 	TwoURLs   bool
+	Many      int // this many copies of one short valid address are appended to Addrs (the address-count cap is 8192)
 }
 
 var validAddrTexts = []string{"/ip4/8.8.8.8/tcp/3003", "/ip6/2606:4700::1/tcp/443/https", "/dns4/pub.example.com/tcp/80/http", "/ip4/1.2.3.4/udp/4001/quic-v1", "/ip4/127.0.0.1/tcp/9", "/dns/localhost/tcp/3104/http/http-path/a%2Fb"}
@@ -85,6 +86,12 @@ func genMsg(t *rapid.T) msgCase {
 	n := rapid.OneOf(rapid.IntRange(0, 5), rapid.IntRange(0, 32)).Draw(t, "naddrs")
 	for i := 0; i < n; i++ {
 		c.Addrs = append(c.Addrs, genAddr(t))
+	}
+	if rapid.IntRange(0, 299).Draw(t, "manyaddrs") == 123 {
+		// address counts at the cap of the array header: what the encoder still writes the decoder must read
+		c.Many = rapid.SampledFrom([]int{8190, 8191, 8192}).Draw(t, "many") - len(c.Addrs)
+		c.Sender = "none"
+		return c
 	}
 	huge := rapid.IntRange(0, 499).Draw(t, "huge") == 321 // (rapid favours the ends of a range: an interior value is the rare one)
 	if huge {
@@ -184,6 +191,13 @@ func capServer() *httptest.Server {
 }
 
 func runMsg(c msgCase) pbt.Result {
+	if c.Many > 0 {
+		short := addr{Kind: "valid", Bytes: multiaddr.StringCast("/ip4/127.0.0.1/tcp/9").Bytes()}
+		c.Addrs = append([]addr(nil), c.Addrs...)
+		for i := 0; i < c.Many; i++ {
+			c.Addrs = append(c.Addrs, short)
+		}
+	}
 	m := c.build()
 	res := pbt.Result{Classes: []string{fmt.Sprintf("origpeer=%v", c.OrigPeer >= 0), "sender=" + c.Sender}}
 	nUnknown, nValid, nEmpty := 0, 0, 0
@@ -304,6 +318,7 @@ func runMsg(c msgCase) pbt.Result {
 		capReqs = nil
 		capMu.Unlock()
 		before := c.build()
+		before.ExtraData = append([]byte(nil), m.ExtraData...) // its own memory: the message under test shares c.ExtraData with every build()
 		if c.Sender == "cbor" {
 			err = s.Send(context.Background(), m)
 		} else {
@@ -313,8 +328,9 @@ func runMsg(c msgCase) pbt.Result {
 			return merge(res, pbt.Failf("httpsender %s: %v", c.Sender, err))
 		}
 		if d := msgEq(before, m); d != "" {
-			return merge(res, pbt.Failf("sender modified the caller's message (%s)", d))
+			return merge(res, pbt.Failf("sender modified the caller's message (%s): ExtraData was %x, is %x (sender-level extra data %x)", d, before.ExtraData, m.ExtraData, c.SenderXD))
 		}
+
 		capMu.Lock()
 		reqs := append([]capReq(nil), capReqs...)
 		capMu.Unlock()
